@@ -715,6 +715,7 @@ fn parse_json_filter(input: &[u8], output: &mut [u8]) -> Result<(usize, usize), 
         eat_whitespace_and_commas(input, &mut inpos);
 
         // Check for end
+        need_input!(input, inpos);
         if input[inpos] == b'}' {
             inpos += 1;
             break;
@@ -861,6 +862,7 @@ fn parse_json_filter(input: &[u8], output: &mut [u8]) -> Result<(usize, usize), 
         // `inpos` is right after the open bracket of the array
         loop {
             eat_whitespace_and_commas(input, &mut inpos);
+            need_input!(input, inpos);
             if input[inpos] == b']' {
                 break;
             }
@@ -879,6 +881,7 @@ fn parse_json_filter(input: &[u8], output: &mut [u8]) -> Result<(usize, usize), 
         // `inpos` is right after the open bracket of the array
         loop {
             eat_whitespace_and_commas(input, &mut inpos);
+            need_input!(input, inpos);
             if input[inpos] == b']' {
                 break;
             }
@@ -901,6 +904,7 @@ fn parse_json_filter(input: &[u8], output: &mut [u8]) -> Result<(usize, usize), 
         // `inpos` is right after the open bracket of the array
         loop {
             eat_whitespace_and_commas(input, &mut inpos);
+            need_input!(input, inpos);
             if input[inpos] == b']' {
                 break;
             }
@@ -947,8 +951,8 @@ fn parse_json_filter(input: &[u8], output: &mut [u8]) -> Result<(usize, usize), 
             let countindex = end;
             end += 2;
             put(output, end, 1_u16.to_ne_bytes().as_slice())?;
-            if output.len() < end + 2 {
-                return Err(InnerError::BufferTooSmall(end + 2).into());
+            if output.len() < end + 3 {
+                return Err(InnerError::BufferTooSmall(end + 3).into());
             }
             output[end + 2] = letter;
 
@@ -964,11 +968,15 @@ fn parse_json_filter(input: &[u8], output: &mut [u8]) -> Result<(usize, usize), 
             let mut count: u16 = 1; // the tag letter itself counts
             loop {
                 eat_whitespace_and_commas(input, &mut inpos);
+                need_input!(input, inpos);
                 if input[inpos] == b']' {
                     break;
                 }
                 verify_char(input, b'"', &mut inpos)?;
                 // copy  data
+                if output.len() < end + 2 {
+                    return Err(InnerError::BufferTooSmall(end + 2).into());
+                }
                 let (inlen, outlen) = json_unescape(&input[inpos..], &mut output[end + 2..])?;
                 // write len
                 put(output, end, (outlen as u16).to_ne_bytes().as_slice())?;
